@@ -424,7 +424,14 @@ async fn drive(d: &mut Director, p: &Profile, rng: &mut Rng) {
             }
             8 => {
                 let cur = d.world().max_size_now;
-                let n = rng.usize_below(cur + 3);
+                // any size, but the neighbourhood of the current one (and the current one itself: a resize
+                // that changes nothing still has to trim a late surplus) gets a share of its own
+                let n = match rng.below(8) {
+                    0 | 1 => cur,
+                    2 => cur.saturating_sub(1),
+                    3 => cur + 1,
+                    _ => rng.usize_below(cur + 3),
+                };
                 d.resize(n);
             }
             9 => d.close(),
